@@ -90,18 +90,27 @@ proof fn lemma_inc_le(s: Seq<u32>, a: int, b: int)
     decreases b - a
 { if a < b { lemma_inc_le(s, a, b - 1); } }
 
+#[verifier::external_body]
+fn vx_remove_item() -> Result<(), ChunkCacheError> { unimplemented!() }
+
+spec fn span(item: CacheItem) -> int { item.range.end - item.range.start + 1 }
+spec fn lens_match(range: ChunkRange, item: CacheItem, hdr: Seq<u32>, given: Seq<u32>) -> bool {
+    forall|k: int| 0 <= k < range.end - range.start ==> {
+        let o = (range.start - item.range.start) as int;
+        hdr[o + k + 1] - hdr[o + k] == #[trigger] given[k + 1] - given[k] }
+}
 // C12: "entries that were damaged, truncated, RENAMED or planted while the cache was closed turn into misses or errors once it
-// is re-opened, never into wrong data or a panic".  Here the stored header is ANY header that `CacheFileHeader::deserialize`
-// accepts (strictly increasing from 0): nothing that runs before this point in `validate_match` (range inside the item's range,
-// file length == item.len, crc == item.checksum, header parses) relates the number of stored indices to the range the item's
-// NAME claims.  U-CACHESLICE verifies the same statements under the extra assumption that the header has one index per chunk
-// boundary of the item (true for a file that still carries the name `put` gave it).
+// is re-opened, never into wrong data or a panic".  The stored header is ANY header that `CacheFileHeader::deserialize` accepts:
+// nothing earlier in `validate_match` (range inside the item's range, file length == item.len, crc == item.checksum, header
+// parses) relates the number of stored indices to the range the item's NAME claims.  The region starts right after the header
+// is parsed, so it contains the check added by f3ea644; the bound needed by the index expressions must be DISCHARGED from it.
 //@ extract chunk_cache/src/disk.rs in `impl DiskCache` region validate_match
-//@ from `let idx_start = (range.start - cache_item.range.start) as usize;`
+//@ from-after `return Ok(false); };` #2
 //@ to-before `let stored = get_range_from_cache_file(`
-//@ sig `fn validate_match_lens_any_header(range: &ChunkRange, cache_item: &CacheItem, header: &CacheFileHeader, chunk_byte_indices: &[u32]) -> (r: Result<(), ChunkCacheError>)`
-//@ epilogue `Ok(())`
+//@ sig `fn validate_match_lens(range: &ChunkRange, cache_item: &CacheItem, header: &CacheFileHeader, chunk_byte_indices: &[u32]) -> (r: Result<bool, ChunkCacheError>)`
+//@ epilogue `Ok(true)`
 //@ rules cacheacct.R18
+//@ optsubst `self.remove_item(key, cache_item)` => `vx_remove_item()` :: R11 stub: removal of the item from state and disk (U-CACHEACCT remove_item_cs); may fail with any error
 //@ contract
     requires
         cache_item.range.start <= range.start < range.end <= cache_item.range.end,   // checked at the top of validate_match
@@ -109,16 +118,24 @@ proof fn lemma_inc_le(s: Seq<u32>, a: int, b: int)
         hdr_ok(header.chunk_byte_indices@),                                          // deserialize accepted it
         strictly_inc(chunk_byte_indices@), chunk_byte_indices@.len() == range.end - range.start + 1,   // put_impl validated its arguments
     ensures
-        // no panic (index / arithmetic obligations of the body), and a mismatch is reported as an error
-        /*@C12*/ r is Err ==> r matches Err(ChunkCacheError::InvalidArguments) || r matches Err(ChunkCacheError::BadRange),
+        // (no panic: every index / arithmetic obligation of the body is discharged)
+        // a file whose header does not have one offset per chunk boundary of the NAMED range is never matched against
+        /*@C12*/ r matches Ok(false) ==> header.chunk_byte_indices@.len() != span(*cache_item),
+        /*@C12*/ r matches Ok(true) ==> header.chunk_byte_indices@.len() == span(*cache_item)
+            && lens_match(*range, *cache_item, header.chunk_byte_indices@, chunk_byte_indices@),
+        /*@C12*/ header.chunk_byte_indices@.len() == span(*cache_item) ==>
+            (if lens_match(*range, *cache_item, header.chunk_byte_indices@, chunk_byte_indices@) { r matches Ok(true) } else { r matches Err(ChunkCacheError::InvalidArguments) }),
 //@ loop 1
         invariant
             idx_start == range.start - cache_item.range.start, idx_end == range.end - cache_item.range.start + 1,
             cache_item.range.start <= range.start < range.end <= cache_item.range.end, cache_item.range.end < u32::MAX,
             hdr_ok(header.chunk_byte_indices@),
             strictly_inc(chunk_byte_indices@), chunk_byte_indices@.len() == range.end - range.start + 1,
-            // what the index expressions `header.chunk_byte_indices[i + 1]` below need; nothing before the loop provides it
+            // what the index expressions `header.chunk_byte_indices[i + 1]` below need — discharged from the check above the loop
             /*@C12*/ idx_end <= header.chunk_byte_indices@.len(),
+            header.chunk_byte_indices@.len() == span(*cache_item),
+            forall|k: int| 0 <= k < vx_it1.index@ ==>
+                header.chunk_byte_indices@[idx_start + k + 1] - header.chunk_byte_indices@[idx_start + k] == #[trigger] chunk_byte_indices@[k + 1] - chunk_byte_indices@[k],
 //@ before `let stored_diff =`
         proof {
             lemma_inc_le(header.chunk_byte_indices@, i as int, i + 1);
